@@ -5,7 +5,18 @@ From Astro Require Import Base.
 
 Inductive opname :=
 (* C01 *)
-| Op_date_of_days | Op_dt_of_days | Op_date_from_ymd | Op_dt_from_ymd.
+| Op_date_of_days | Op_dt_of_days | Op_date_from_ymd | Op_dt_from_ymd
+(* arithmetic API (C02-C10, C15) *)
+| Op_dt_from_ts | Op_date_from_ts | Op_dt_cmp | Op_date_cmp | Op_time_cmp
+| Op_dt_add | Op_dt_sub | Op_dt_add_dur | Op_dt_sub_dur | Op_dt_add_time | Op_dt_sub_time
+| Op_date_add_days | Op_date_sub_days | Op_date_add_dur | Op_date_sub_dur
+| Op_dt_since | Op_dt_dur_between | Op_time_since | Op_time_dur_between | Op_date_days_since | Op_date_dur_between
+| Op_time_ctor | Op_time_add | Op_time_sub | Op_time_add_time | Op_time_sub_time | Op_time_add_dur | Op_time_sub_dur
+| Op_time_get | Op_time_of_dt
+| Op_date_addm | Op_dt_addm | Op_date_ms | Op_dt_ms
+| Op_dt_set | Op_dt_clear | Op_time_set | Op_time_clear | Op_date_set | Op_date_clear | Op_dt_get
+| Op_dt_set_offset | Op_dt_as_offset | Op_time_set_offset | Op_time_as_offset | Op_offset_from_seconds | Op_offset_from_hms
+| Op_dt_from_ymdhms | Op_dt_from_hms | Op_date_info | Op_dt_info.
 
 Inductive obs :=
 | OOk (zs : list Z) (ss : list (list Z))
